@@ -448,7 +448,8 @@ def maybe_moved(rnd, scn, p=0.1):
     return scn
 
 
-GUEST_POINTS = ("update.before", "update.after", "attempt", "attempt", "screen", "refresh.before", "save.before", "save.after")
+GUEST_POINTS = ("update.before", "update.after", "attempt", "attempt", "screen", "refresh.before", "save.before", "save.after", "line", "line", "line")
+GUEST_LINE_FUNCS = ("update", "update", "_run_stage", "_run_stage", "save_time_step", "_save_time_step", "adaptive_euler_step", "solve_for_observables", "update_mu_boundary", "append", "solve_for_psi_squared", "solve_for_psi_squared", "set_link_exponents", "get_induced_vector_potential", "*", "*", "*")
 
 
 def gen_guests(rnd, scn, n=None):
@@ -464,7 +465,24 @@ def gen_guests(rnd, scn, n=None):
         if point == "screen" and not o.get("include_screening"):
             point = "attempt"
         at = {"point": point, "stage": "T" if (o.get("skip_time") and rnd.random() < 0.2) else "S", "step": rnd.randint(0, max(0, min(steps, 12) - 1))}
-        if point in ("save.before", "save.after"):
+        if point == "line":
+            # a line-level pre-emption point of the update, the run loop or the frame writer (n-th line event
+            # of the function in the stage)
+            fn = rnd.choice(GUEST_LINE_FUNCS)
+            if fn == "*":
+                # the n-th line the library executes in the stage, in whatever function (new helpers included)
+                at = {"point": "line", "stage": at["stage"], "func": "*", "ordinal": rnd.randint(5, 250 * max(1, min(steps, 12)))}
+                # ... or the n-th line executed INSIDE one kind of seam (all its occurrences in the stage counted
+                # together): the psi update, a screening iteration, an operator refresh, a frame write
+                w_ = rnd.choice([None, "psi", "psi", "refresh", "refresh", "screen", "writer"])
+                if w_ == "screen" and not o.get("include_screening"):
+                    w_ = "psi"
+                if w_ is not None:
+                    at["within"] = w_
+                    at["ordinal"] = rnd.randint(0, 30) + 25 * rnd.randint(0, max(0, min(steps, 8) - 1))
+            else:
+                at = {"point": "line", "stage": at["stage"], "func": fn, "ordinal": rnd.randint(1, 12) if fn in ("save_time_step", "_save_time_step") else rnd.randint(2, (12 if fn in ("solve_for_psi_squared", "set_link_exponents") else 40) * max(1, min(steps, 12)))}
+        elif point in ("save.before", "save.after"):
             at["step"] = None  # the first frame written from the chosen occurrence on
             at["nth"] = rnd.choice([0, 0, 1, 2])
         elif point in ("screen", "refresh.before", "attempt"):
@@ -482,6 +500,13 @@ def gen_guests(rnd, scn, n=None):
             what["terminal_psi"] = 0.0 if tp is None else None
         if rnd.random() < 0.25:
             what["screening"] = not bool(o.get("include_screening"))
+        # the other simulation is another point of a sweep: other terminal currents, another disorder
+        # (drawn from a stream of their own: the guests generated before these existed stay as they were)
+        v = __import__("random").Random(rnd.getrandbits(32))
+        if scn["drive"].get("currents") is not None and v.random() < 0.5 and what["mode"] != "sibling":
+            what["currents_scale"] = v.choice([3.5, -1.0, 0.0, 0.3])
+        if v.random() < 0.35 and what["mode"] != "sibling":
+            what["epsilon"] = {"kind": "const", "v": v.choice([0.3, 0.6, -0.5])}
         out.append({"at": at, "what": what})
     return out
 
